@@ -159,6 +159,11 @@ VARIANTS = [
     dict(radii=[2, 1], kernel="harmonic", orient=["after", "directional"], normwin=False),
     dict(radii=[1, 2, 1], kernel="flat", orient=["directional", "before", "after"], normwin=False, mix=[1.0, 2.0, 4.0]),
     dict(radii=[2, 1, 2], kernel="flat", orient=["after", "directional", "before"], normwin=True),
+    # kernel arguments given PER WINDOW (a list of dicts): an option set for one window only must not reach the others
+    dict(radii=[2, 2], kernel="flat", orient=["after", "after"], normwin=False, kargs=[{"offset": 1}, {}]),
+    dict(radii=[2, 3], kernel="harmonic", orient=["after", "before"], normwin=False, kargs=[{"normalize": True}, {}]),
+    dict(radii=[2, 2], kernel="flat", orient=["directional", "after"], normwin=False, kargs=[{}, {"offset": 1}]),
+    dict(radii=[3, 2, 2], kernel="harmonic", orient=["before", "after", "after"], normwin=True, kargs=[{"offset": 2}, {"normalize": True}, {}]),
 ]
 TIMED_CFGS = [c for c in product_dicts(radii=[[1], [2]], kernel=["flat", "geometric"],
                                        orient=["after", "directional"], normwin=[False, True])] + [
